@@ -105,7 +105,9 @@ class Run:
             base.append(pd)
         for p in base:
             p.__enter__()
-        self.base_pairs = len(HandlerCollection.current.get().handler_pairs)
+        from pv.core import introspect as I
+
+        self.base_pairs = len(I.current_pairs() or [])
         self.in_body = False
 
         def make_overlay(name):
@@ -116,10 +118,10 @@ class Run:
             return ol
 
         def snapshot():
-            cur = HandlerCollection.current.get()
-            if cur is None:
+            pairs = I.current_pairs()
+            if pairs is None:
                 return None
-            return tuple(handler_slot.get(id(acc), "base") for _, acc in cur.handler_pairs)
+            return tuple(handler_slot.get(id(acc), "base") for _, acc in pairs)
 
         def step_fn(op):
             def step():
